@@ -803,6 +803,9 @@ CORPUS6_BASE = ('''corpus imp and tr after interpolation\n1 1 -1.0 -1\n2 0 1 -2\
 CORPUS6 = [
     ('imp:n 1 1 2 1i 0 r', lambda t: t.replace('imp:n 1 1 2 1 0 0', 'imp:n 1 1 2 1i 0 r')),
     ('imp:n 1 r 2 I 0 R', lambda t: t.replace('imp:n 1 1 2 1 0 0', 'IMP:N 1 r 2 I 0 R')),
+    ('imp:n 1.0 1 2 1 0 0 -- first entry with a fraction (seeded change C14_G)',
+     lambda t: t.replace('imp:n 1 1 2 1 0 0', 'imp:n 1.0 1 2 1 0 0')),
+    ('imp:n 1.00e0 1. 2 1 0 0', lambda t: t.replace('imp:n 1 1 2 1 0 0', 'imp:n 1.00e0 1. 2 1 0 0')),
     ('tr1 0 1i 2 r ...', lambda t: t.replace('tr1 0 1 2 2 0 0', 'tr1 0 1i 2 r 0 0')),
     ('tr1 0 1i 2 r 0 2i 1 (interpolation after interpolation)',
      lambda t: t.replace('tr1 0 1 2 2 0 0 0 1 0', 'tr1 0 1i 2 r 0 2i 1 0')),
